@@ -3,6 +3,7 @@
 //! Panics of the implementation are an output (`PANIC <class>`), not a crash of the harness.
 mod fam_constr;
 mod fam_nms;
+mod fam_vote;
 mod wire;
 
 use std::io::{BufRead, Write};
@@ -24,6 +25,7 @@ fn exec(ctx: &mut Ctx, line: &str) -> String {
         }
         "nms" => fam_nms::exec(ctx, &mut t),
         "constr" => fam_constr::exec(ctx, &mut t),
+        "vote" => fam_vote::exec(ctx, &mut t),
         _ => format!("UNKNOWN-FAMILY {fam}"),
     }
 }
